@@ -19,6 +19,8 @@ const linkRaceFallback = `namespace ErgoVerif.Gen.LinkRace
 def lookups : List (String × Nat) := []
 def recheckAfterAdd : Bool := false
 def deleteBeforeDrain : Bool := false
+def remoteRecheckAfterAdd : Bool := false
+def connectionDeletedBeforeNodeDown : Bool := false
 end ErgoVerif.Gen.LinkRace
 `
 
@@ -117,6 +119,79 @@ func genLinkRace() (string, error) {
 	sb.WriteString(strings.Join(rows, ",\n") + "]\n")
 	fmt.Fprintf(&sb, "/-- every RouteLink*/RouteMonitor* looks the target up again after inserting the relation -/\ndef recheckAfterAdd : Bool := %s\n", leanBool(all))
 	fmt.Fprintf(&sb, "/-- unregisterProcess removes the process from the table before it drains the relations on it -/\ndef deleteBeforeDrain : Bool := %s\n", leanBool(delPos < drainPos))
+	// ---- remote branches: after the local `if n.name == target.Node {…}` block: the relation insert is followed by
+	// a look at the connection table (n.network.Connection) compared with the connection the request went over
+	remoteAll := true
+	for _, op := range []string{"Link", "Monitor"} {
+		for _, kind := range []string{"PID", "ProcessID", "Alias", "Event"} {
+			name := "Route" + op + kind
+			fd := funcDecl(core, "node", name)
+			addPos, connPos, cmp := 0, 0, false
+			for _, st := range fd.Body.List {
+				if is, ok := st.(*ast.IfStmt); ok {
+					if be, ok := is.Cond.(*ast.BinaryExpr); ok {
+						x := selName(be.X) + "==" + selName(be.Y)
+						if x == "n.name==target.Node" || x == "target.Node==n.name" {
+							continue // the local branch
+						}
+					}
+				}
+				ast.Inspect(st, func(n ast.Node) bool {
+					switch c := n.(type) {
+					case *ast.CallExpr:
+						fn := selName(c.Fun)
+						if strings.HasPrefix(fn, "n.targetManager.Add") && addPos == 0 {
+							addPos = int(c.Pos())
+						}
+						if fn == "n.network.Connection" && addPos != 0 && connPos == 0 {
+							connPos = int(c.Pos())
+						}
+					case *ast.BinaryExpr:
+						if c.Op.String() == "!=" && (selName(c.Y) == "connection" || selName(c.X) == "connection") && connPos != 0 {
+							cmp = true
+						}
+					}
+					return true
+				})
+			}
+			if addPos == 0 {
+				return "", fmt.Errorf("node.%s: relation insert not found in the remote branch", name)
+			}
+			if !(connPos > addPos && cmp) {
+				remoteAll = false
+			}
+		}
+	}
+	// ---- unregisterConnection: the connection leaves the table before RouteNodeDown drains the relations
+	nw, err := parseFile("node/network.go")
+	if err != nil {
+		return "", err
+	}
+	uc := funcDecl(nw, "network", "unregisterConnection")
+	if uc == nil {
+		return "", fmt.Errorf("network.unregisterConnection not found")
+	}
+	cdel, cdown := 0, 0
+	ast.Inspect(uc.Body, func(n ast.Node) bool {
+		if c, ok := n.(*ast.CallExpr); ok {
+			switch selName(c.Fun) {
+			case "n.connections.Delete":
+				if cdel == 0 {
+					cdel = int(c.Pos())
+				}
+			case "n.node.RouteNodeDown":
+				if cdown == 0 {
+					cdown = int(c.Pos())
+				}
+			}
+		}
+		return true
+	})
+	if cdel == 0 || cdown == 0 {
+		return "", fmt.Errorf("unregisterConnection: connections.Delete / RouteNodeDown not found")
+	}
+	fmt.Fprintf(&sb, "/-- every RouteLink*/RouteMonitor* with a remote target looks at the connection table again after inserting the relation (and compares with the connection the request went over) -/\ndef remoteRecheckAfterAdd : Bool := %s\n", leanBool(remoteAll))
+	fmt.Fprintf(&sb, "/-- unregisterConnection deletes the connection from the table before RouteNodeDown drains the relations -/\ndef connectionDeletedBeforeNodeDown : Bool := %s\n", leanBool(cdel < cdown))
 	sb.WriteString("end ErgoVerif.Gen.LinkRace\n")
 	return sb.String(), nil
 }
